@@ -16,7 +16,7 @@ func init() {
 	register(&Property{
 		ID:      "C11",
 		NeedSSA: true,
-		Decided: "Structural necessary conditions: (marker) the types whose method set contains the chunk-transparency marker are exactly the frozen allow-list (file row groups, buffers, row-range views), no type that declares its own Rows() obtains the marker or the segment accessor by promotion from an embedded type, and both fast-path entries test the marker before they look at column chunks; wrappers that change row semantics (merge with duplicate dropping) return no segments; (strict) in the eligibility predicates every inequality between a property of the source chunk and the destination writer's configuration refuses immediately, with no further condition attached; (limits) both fast-path entries compare the row count with the row-group limit; (nocopy) eligibility consults the encryption state (C18.nocopy); (rows) a function that feeds values read with ReadValues to ColumnWriter.WriteRowValues, whose contract is whole rows, finds row boundaries through the repetition levels; (order) the packing path flushes buffered rows before it sizes bloom filters and flushes a pending batch before it would exceed the row-group limit.",
+		Decided: "Structural necessary conditions: (marker) the types whose method set contains the chunk-transparency marker are exactly the frozen allow-list (file row groups, buffers, row-range views), no type that declares its own Rows() obtains the marker or the segment accessor by promotion from an embedded type, and both fast-path entries test the marker before they look at column chunks; wrappers that change row semantics (merge with duplicate dropping) return no segments; (strict) in the eligibility predicates every inequality between a property of the source chunk and the destination writer's configuration refuses immediately, with no further condition attached; (limits) both fast-path entries compare the row count with the row-group limit; (nocopy) eligibility consults the encryption state (C18.nocopy); (rows) a function that feeds values read with ReadValues to ColumnWriter.WriteRowValues, whose contract is whole rows, finds row boundaries through the repetition levels; (order) the packing path flushes buffered rows before it sizes bloom filters and flushes a pending batch before it would exceed the row-group limit. (source) outside the static call closure of OpenFile and of the lazy page-index loader, no function of the package writes through a field of the File* types that holds parsed format structures (footer, row groups, column chunks, page indexes): what is copied from an open file is copied, not adjusted in place. (cloneall) a function that returns a struct starting from a shallow copy of its parameter and re-assigns some slice or map field with a copy re-assigns every slice and map field.",
 		NotDecided: "byte or row equality of the outputs; that the predicate lists every writer option that matters (options read on the encode path but not by the predicate are listed in the evidence notes, not decided); page boundary arithmetic.",
 		Assumptions: []string{"method sets are computed by go/types, promotion included"},
 		Run:         runC11,
@@ -24,7 +24,7 @@ func init() {
 	register(&Property{
 		ID:      "C09",
 		NeedSSA: true,
-		Decided: "Only the clause `equally when the merged row group is written to a file` is decided, structurally: (marker) mergedRowGroup and sortedSegmentRowGroup, dedup and converted wrappers do not carry the chunk-transparency marker, so the writer reads them through Rows(); mergedRowGroup declares its own segment accessor returning nil although it embeds a type that opts in; sortedSegmentRowGroup returns no segments on the duplicate-dropping path (the return of its segments is dominated by the test of dropDuplicatedRows); (bounds) the function that computes the key range of a sorted row group takes the direction of each sorting column from that column, not from a fixed one; (errors) the merge readers propagate read errors of their inputs (shared with C14.errflow). (bounds, cont.) the key range of a sorted row group consults the null counts of the column index and NullsFirst() of the sorting column.",
+		Decided: "Only the clause `equally when the merged row group is written to a file` is decided, structurally: (marker) mergedRowGroup and sortedSegmentRowGroup, dedup and converted wrappers do not carry the chunk-transparency marker, so the writer reads them through Rows(); mergedRowGroup declares its own segment accessor returning nil although it embeds a type that opts in; sortedSegmentRowGroup returns no segments on the duplicate-dropping path (the return of its segments is dominated by the test of dropDuplicatedRows); (bounds) the function that computes the key range of a sorted row group takes the direction of each sorting column from that column, not from a fixed one; (errors) the merge readers propagate read errors of their inputs (shared with C14.errflow). (bounds, cont.) the key range of a sorted row group consults the null counts of the column index and NullsFirst() of the sorting column. (nullcount) every count over definition levels (countLevelsEqual / countLevelsNotEqual on a value read from a field or parameter named after definition levels) compares with a maximum definition level, never with a constant. (wraporder) the argument of CompareDescending never derives from CompareNullsFirst / CompareNullsLast: the null placement is applied outside the reversal.",
 		NotDecided: "sortedness, multiset equality, stability and deduplication of the merged sequence: the loser tree, run detection, range refinement and the page-boundary cut are value-dependent (a cut comparison that is `>=` instead of `>` is not visible structurally).",
 		Assumptions: []string{"method sets are computed by go/types, promotion included"},
 		Run:         runC09,
@@ -203,6 +203,8 @@ func strictRule(c *Ctx, rule string, fns []string) {
 
 func runC11(c *Ctx) {
 	p := c.P
+	c11Source(c)
+	runCloneAllRule(c, "C11.cloneall", 2)
 	markerRule(c, "C11.marker")
 	strictRule(c, "C11.strict", []string{"columnChunkIsCopyable", "encodingStatsMatch", "(*Writer).copyableColumnChunks", "(*Writer).columnOrientedRowGroup"})
 	c.Min("C11.strict", 6)
@@ -341,6 +343,8 @@ func lookupFuncs(p *Prog, keys ...string) []*ssa.Function {
 }
 
 func runC09(c *Ctx) {
+	c09NullCount(c)
+	c10WrapOrder(c)
 	p := c.P
 	markerRule(c, "C09.marker")
 	// per-column direction
@@ -410,4 +414,105 @@ func runC09(c *Ctx) {
 		func(s ErrSite) bool { return io.CallMayFail(s.Call) },
 		c14Exceptions)
 	c.Min("C09.errors", 3)
+}
+
+// c11Source — an open file is read-only: the parsed metadata it keeps (footer,
+// row groups, column chunks, page indexes — fields of the File* types whose
+// type comes from the format package) is shared by every row group, chunk and
+// index handed out, by every goroutine reading the file, and by every writer
+// that copies from it. Outside the functions that open the file (the static
+// call closure of OpenFile and the lazy page-index loader), no function of the
+// module writes through such a field: a writer that adjusts the source's page
+// locations in place produces a correct first copy and a corrupt second one.
+func c11Source(c *Ctx) {
+	rule := "C11.source"
+	p := c.P
+	owned := map[*types.Var]bool{}
+	for _, name := range p.Root.Types.Scope().Names() {
+		tn, ok := p.Root.Types.Scope().Lookup(name).(*types.TypeName)
+		if !ok || !strings.HasPrefix(name, "File") {
+			continue
+		}
+		st, ok := tn.Type().Underlying().(*types.Struct)
+		if !ok {
+			continue
+		}
+		for i := 0; i < st.NumFields(); i++ {
+			f := st.Field(i)
+			t := f.Type()
+			for d := 0; d < 3; d++ {
+				switch u := t.(type) {
+				case *types.Pointer:
+					t = u.Elem()
+				case *types.Slice:
+					t = u.Elem()
+				}
+			}
+			if n := namedOf(t); n != nil && n.Obj().Pkg() != nil && strings.HasSuffix(n.Obj().Pkg().Path(), "/format") {
+				owned[f.Origin()] = true
+			}
+		}
+	}
+	if !c.Anchor(rule, "fields of the File* types that hold parsed format structures", len(owned) >= 4) {
+		return
+	}
+	// the functions that build a file
+	openers := map[*ssa.Function]bool{}
+	var frontier []*ssa.Function
+	for _, k := range []string{"OpenFile", "(*File).ReadPageIndex"} {
+		if obj := p.LookupFunc(k); obj != nil {
+			if fn := p.SSAFunc(obj); fn != nil && !openers[fn] {
+				openers[fn] = true
+				frontier = append(frontier, fn)
+			}
+		}
+	}
+	for depth := 0; depth < 6 && len(frontier) > 0; depth++ {
+		var next []*ssa.Function
+		for _, fn := range frontier {
+			allCalls(fn, true, func(_ *ssa.Function, call ssa.CallInstruction) {
+				if g := call.Common().StaticCallee(); g != nil && inModule(g) && g.Blocks != nil && !openers[originFn(g)] {
+					openers[originFn(g)] = true
+					next = append(next, originFn(g))
+				}
+			})
+		}
+		frontier = next
+	}
+	reads := 0
+	var bad []string
+	for _, fn := range p.ModuleSSAFuncs() {
+		if fn.Origin() != nil || fn.Blocks == nil || fnPkgPath(fn) != modPath {
+			continue
+		}
+		top := fn
+		for top.Parent() != nil {
+			top = top.Parent()
+		}
+		allInstrs(fn, false, func(_ *ssa.Function, ins ssa.Instruction) {
+			if fa, ok := ins.(*ssa.FieldAddr); ok {
+				if st := structOf(fa.X.Type()); st != nil && owned[st.Field(fa.Field).Origin()] {
+					reads++
+				}
+			}
+		})
+		if openers[originFn(top)] {
+			continue
+		}
+		for _, w := range ChainWrites(fn) {
+			if w.Fresh {
+				continue
+			}
+			for _, f := range w.Chain {
+				if owned[f] {
+					bad = append(bad, FuncKey(fn)+" writes "+chainString(p, w.Chain)+" at "+p.Pos(w.Pos))
+					break
+				}
+			}
+		}
+	}
+	sort.Strings(bad)
+	c.Stats[rule+".accesses_to_file_metadata"] = reads
+	c.Stats[rule+".file_metadata_fields"] = len(owned)
+	c.Check(rule, "the parsed metadata of an open file is written only while the file is opened", token.NoPos, len(bad) == 0 && reads > 20, strings.Join(bad, "; ")+": the structures belong to the open file and are shared by everything read or copied from it; a change made for one use is seen by the next (the second verbatim copy of a row group gets page locations rebased twice)")
 }
